@@ -54,7 +54,7 @@ def main():
         meta['ran'].append(f'demo.py without patch rc={rc0}, with patch rc={rc1}')
         if a.tests:
             t0 = time.time()
-            rc, out = sh(f'/venv/bin/python -m pytest {a.tests} -q -p no:cacheprovider -x --timeout=900', cwd=wt, env=env, timeout=7200)
+            rc, out = sh(f"unshare -n sh -c 'ip link set lo up; exec /venv/bin/python -m pytest {a.tests} -q -p no:cacheprovider -x --timeout=900'", cwd=wt, env=env, timeout=7200)
             meta['tests_with_patch'] = dict(cmd=f'pytest {a.tests}', rc=rc, tail=out[-400:], wall=round(time.time() - t0))
             meta['ran'].append(f'pytest {a.tests} with patch: rc={rc}')
         # run the checks from a private copy of /verif against the patched tree
